@@ -4,13 +4,13 @@ ALL = ["C%02d" % i for i in range(1, 21)]
 TEXT = {
     "C01": dict(
         technique="property-based testing (rapid): generated templates/populations serialized by the library, framing recomputed from the bytes by an independent reference",
-        level_text="Exploration: every generated message (generic templates to depth 4, all tests/fix44 types, default and arbitrary framing tags, steered onto every BodyLength digit boundary and checksum class) is serialized and its BodyLength/CheckSum/field order re-derived from the bytes alone; a metamorphic step mutates the same object and re-serializes. Holds on N sampled cases, not for all.",
+        level_text="Exploration: every generated message (generic templates to depth 4, all tests/fix44 types, default and arbitrary framing tags, steered onto every BodyLength digit boundary and checksum class) is serialized and its BodyLength/CheckSum/field order re-derived from the bytes alone; a metamorphic step mutates the same object and re-serializes, and the byte slices returned earlier must still hold what they held (a caller may have queued them); components, groups and entries are assembled in every way generated code offers (in place, fresh object put into its slot before or after it is populated, entry added before or after it is populated, entry made from Group.AsTemplate). Holds on N sampled cases, not for all.",
         level_note="Trusted: the harness's reference framing checker (harness/ref, itself tested on hand-counted vectors) and the Go toolchain. Values never contain SOH; header and trailer components are always set.",
         design_ref="DESIGN.md section 4, C01",
     ),
     "C17": dict(
         technique="property-based testing (rapid): wire token list compared with a model-derived list of populated leaves, per installation route and message part",
-        level_text="Exploration: for generated populations using every public constructor, Set, KeyValue.Set and FromBytes of every value type in header, body, trailer, components and group entries, the tokenized output must equal the model's list (tags, order, group counts, canonical texts; Float by a validity predicate), also after a mutation of the same object and for the standalone Component/Items serializers.",
+        level_text="Exploration: for generated populations using every public constructor, Set, KeyValue.Set and FromBytes of every value type in header, body, trailer, components and group entries, the tokenized output must equal the model's list (tags, order, group counts, canonical texts; Float by a validity predicate), also after a mutation of the same object and for the standalone Component/Items serializers; components, groups and entries are assembled in every way generated code offers (in place / fresh object Set into its slot / entry added before it is populated / entry made from Group.AsTemplate).",
         level_note="Trusted: harness/ref tokenizer and the model in harness/gen. Header, body and trailer leaves are all compared (the trailer defect the check found first is repaired).",
         design_ref="DESIGN.md section 4, C17",
     ),
@@ -23,7 +23,7 @@ TEXT = {
     "C03": dict(
         technique="property-based generation of base messages x exhaustive enumeration of each base's single-byte damage neighbourhood; oracle: accepted implies independently confirmed framing",
         engine="rapid",
-        level_text="Fault enumeration: for every generated base message (including adversarial ones that carry a decoy CheckSum in a value, with a padding byte solved so that one substitution makes the decoy self-consistent) ALL substitutions, insertions, deletions and proper prefixes are offered to both parser entry points; any accepted variant must be confirmed framed by the independent reference. Complete per base message, sampled over base messages.",
+        level_text="Fault enumeration: for every generated base message (including adversarial ones that carry a decoy CheckSum in a value, with a padding byte solved so that one substitution makes the decoy self-consistent) ALL substitutions, insertions, deletions and proper prefixes are offered to both parser entry points; any accepted variant must be confirmed framed by the independent reference. Complete per base message, sampled over base messages. A second engine offers a sampled neighbourhood from 4 goroutines while 3 others keep parsing and serializing the intact message: the check must be sound whatever else the process parses meanwhile.",
         level_note="Trusted: harness/ref framing checker. Variants that remain consistently framed (NUL inserted into / deleted from the BeginString value) are valid messages; they are counted (still_framed_variants) and may be accepted.",
         design_ref="DESIGN.md section 4, C03",
     ),
@@ -36,31 +36,31 @@ TEXT = {
     "C07": dict(
         technique="stateful property-based testing (rapid histories without an acceptable Logon, pre-populated shared store); invariant over emitted message types",
         level_text="Exploration: histories that by construction never contain an acceptable Logon (resend requests over all ranges, test requests, heartbeats, logouts, refused/damaged Logons, application/unknown types, idle minutes) against an empty store and a store holding an earlier session's messages; every emitted message must be Logon, Logout or Reject and none may equal a stored message of the other session.",
-        level_note="Trusted: synctest and the type whitelist. A second engine runs the unauthenticated connection next to a live logged-on one on a real Acceptor with the shared store.",
+        level_note="Trusted: synctest and the type whitelist. Local Logout()/Stop() calls before any logon are part of the histories (a Logout may go out; nothing else may follow). A second engine runs the unauthenticated connection next to a live logged-on one on a real Acceptor with the shared store.",
         design_ref="DESIGN.md section 4, C07",
     ),
     "C08": dict(
         technique="property-based testing (rapid timing patterns) on a virtual clock (testing/synctest); gap bounds as oracle",
-        level_text="Exploration: send/TestRequest instants are generated relative to heartbeat deadlines (just before, at, just after, N/10 around, bursts, long idle) for N in 1..120 over up to 40 periods of virtual time; all outbound gaps must be <= N+N/10 and unsolicited Heartbeats >= N after the previous outbound message. No wall-clock thresholds.",
+        level_text="Exploration: send/TestRequest instants are generated relative to heartbeat deadlines (just before, at, just after, N/10 around, bursts, long idle) for N in 1..120 over up to 40 periods of virtual time; all outbound gaps must be <= N+N/10 and unsolicited Heartbeats >= N after the previous outbound message; a sixth of the application sends are refused by an application outgoing handler (not transmitted, so they must not postpone the heartbeat). No wall-clock thresholds.",
         level_note="Trusted: synctest's virtual time. Re-logon with another interval is generated for the acceptor only.",
         design_ref="DESIGN.md section 4, C08",
     ),
     "C09": dict(
         technique="property-based testing (rapid arrival patterns) on a virtual clock; deadline windows as oracle",
-        level_text="Exploration: silence / late / answered / steady inbound patterns for N in 1..120; the monitor recomputes from the inbound instants when a TestRequest must and must not be sent and when the disconnect event and handler stop must and must not happen, with windows [T, T+T/10].",
+        level_text="Exploration: silence / late / answered / steady inbound patterns for N in 1..120; the monitor recomputes from the inbound instants when a TestRequest must and must not be sent and when the disconnect event and handler stop must and must not happen, with windows [T, T+T/10]; in a fifth of the non-steady histories an application outgoing handler refuses every TestRequest (the attempts take the probes' place: a peer silent for a second period is disconnected all the same).",
         level_note="Trusted: synctest's virtual time. Socket closing is observed in C13's full rig, not here.",
         design_ref="DESIGN.md section 4, C09",
     ),
     "C10": dict(
         technique="stateful property-based testing (rapid): recorded first transmissions as reference model for retransmissions; small-number enumeration of (stored, received) Logon sequence numbers",
-        level_text="Exploration: outbound prefixes of mixed administrative and application messages followed by ResendRequests over all range classes; emitted retransmissions are compared byte for byte with the recorded first transmission of the same number, must lie in the requested range and must be complete for ranges inside the sent range (e=0: through the last). A second engine checks the gap ResendRequest on Logon for (c,r) pairs.",
+        level_text="Exploration: outbound prefixes of mixed administrative and application messages followed by ResendRequests over all range classes; emitted retransmissions are compared byte for byte with the recorded first transmission of the same number, must lie in the requested range and must be complete for ranges inside the sent range (e=0: through the last). A second engine checks the gap ResendRequest on Logon for (c,r) pairs against a preset counter store, a third one lets a real earlier logon (traffic while probing, local or peer logout, or a dropped connection) leave the expected number behind and then logs on again on the same connection or as a new session on the same stores.",
         level_note="Trusted: synctest and the recorder. Known finding resend-wrong:reused-object (application reuses a message object) is reported as KNOWN-FINDING; all other mismatches are violations.",
         design_ref="DESIGN.md section 4, C10",
     ),
     "C11": dict(
         technique="property-based fuzzing (rapid): unstructured and structure-aware hostile inputs, framed by an independent assembler so that they pass the integrity check; oracle: returns without panic within a watchdog",
         level_text="Exploration: raw byte strings of eight classes and correctly framed hostile token lists (random, and near-valid populations with token-level damage) are parsed into generated nested-group templates and every tests/fix44 type by both entry points, and looked up with fix.ValueByTag, with slices presented capacity-clamped and as prefixes of larger buffers.",
-        level_note="Trusted: recover() observes every panic on the calling goroutine; a 20 s per-call watchdog defines 'hang'. The session inbound path is exercised by the session checks (a panic in handler.Run is a violation there: key inbound-panic).",
+        level_note="Trusted: recover() observes every panic on the calling goroutine; a 20 s per-call watchdog defines 'hang'. The session engine hands correctly framed admin messages with token-level damage and extreme numbers (MinInt64..MaxUint64, signs, leading zeros, exponents) to a running session in every state reached by well-formed traffic and local Logout()/Send() calls in between; the transport engine feeds hostile chunks through the real Acceptor.",
         design_ref="DESIGN.md section 4, C11",
     ),
     "C14": dict(
@@ -71,14 +71,14 @@ TEXT = {
     ),
     "C15": dict(
         technique="property-based testing (rapid) on a virtual clock: Logout counts and the exact instant of context cancellation",
-        level_text="Exploration: peer logout, local logout + answer, and Stop with close timeout {0,1ms,1s,30s} x answer {never, immediately, half, just before, after the deadline} with traffic in between; the cancellation instant is compared to the nanosecond with min(answer, deadline).",
+        level_text="Exploration: peer logout, local logout + answer, and Stop with close timeout {0,1ms,1s,30s} x answer {never, immediately, half, just before, after the deadline} with traffic in between; the cancellation instant is compared to the nanosecond with min(answer, deadline). A quarter of the local endings come while the session's own TestRequest is unanswered (peer silent for N+tolerance).",
         level_note="Trusted: synctest's virtual time; intervals >= 40 s keep the session timers out of these histories.",
         design_ref="DESIGN.md section 4, C15",
     ),
     "C16": dict(
         technique="table-driven property-based testing (rapid surroundings around an enumerated (type, damage, state) table); REF-assembled damaged messages",
-        level_text="Exploration: each cell of {5 admin types} x {8 kinds of invalidity} x {3 states} is drawn with generated surroundings; exactly one Reject referencing the offender, IsLogged unchanged, nothing stopped, next valid message handled normally.",
-        level_note="Trusted: synctest and harness/ref (which produces exactly the intended damage).",
+        level_text="Exploration: each cell of {5 admin types} x {8 kinds of invalidity} x {4 states: waiting, logged on, after logout, logged on with the session's own TestRequest unanswered} is drawn with generated surroundings; exactly one Reject referencing the offender, IsLogged unchanged, nothing stopped, next valid message handled normally.",
+        level_note="Trusted: synctest and harness/ref (which produces exactly the intended damage). Non-numeric fields include the count fields of repeating groups (NoHops in the header, NoMsgTypes in a Logon).",
         design_ref="DESIGN.md section 4, C16",
     ),
     "C18": dict(
@@ -89,32 +89,32 @@ TEXT = {
     ),
     "C19": dict(
         technique="stateful property-based testing with fault injection (rapid): recording/failing store and handlers; invariants over a globally ordered event log",
-        level_text="Exploration: generated handler sets (order, type, refusal pattern, registered before/after the session) and store failures; per message: Save-before-wire, handler order, stop at refusal, bytes seen = bytes sent, Send's error result; per inbound message: all-types then own-type handlers in registration order.",
+        level_text="Exploration: generated handler sets (order, type, refusal pattern, registered before/after the session) and store failures; per message: Save-before-wire, handler order, stop at refusal, bytes seen = bytes sent, the field a later handler reads from the object = the field on the wire (handlers modify header or, in place, body fields), Send's error result; per inbound message: all-types then own-type handlers in registration order. A second engine builds an inbound backlog behind a slow application handler and ends the handler by Stop(), the connection-closed error or the teardown: every accepted message is still offered once, in order.",
         level_note="Trusted: the event log's global order (one mutex) and synctest. Incoming handlers always accept.",
         design_ref="DESIGN.md section 4, C19",
     ),
     "C04": dict(
         technique="property-based testing (rapid) of the real Acceptor/Initiator over a scripted in-memory net.Conn: generated read partitions, timings, connection counts and concurrent senders; sent-list = delivered-list oracle",
-        level_text="Exploration: message streams are cut by generated partitions (one byte per read, cuts inside the CheckSum tag, everything coalesced, chunks > 4096) and fed to 1-4 simultaneous connections with generated virtual delays; the per-connection incoming handler must receive exactly the sent messages (count, order, bytes, one at a time, no cross-talk); concurrently 0-6 goroutines hand messages to Send/SendBatch/SendRaw and the captured outbound stream must split into exactly those messages in hand-off order.",
+        level_text="Exploration: message streams are cut by generated partitions (one byte per read, cuts inside the CheckSum tag, everything coalesced, chunks > 4096) and fed to 1-4 simultaneous connections with generated virtual delays; the per-connection incoming handler must receive exactly the sent messages (count, order, bytes, one at a time, no cross-talk); concurrently 0-6 goroutines hand messages to Send/SendBatch/SendRaw and the captured outbound stream must split into exactly those messages in hand-off order. The acceptor's new-client callback may take virtual time while the peer's first bytes are already arriving, and the scripted connection honours read deadlines as a socket does.",
         level_note="Trusted: netsim (own tests: bytes fed = bytes read for any chunking; deadline semantics), harness/ref.Split, synctest.",
         design_ref="DESIGN.md section 4, C04",
     ),
     "C05": dict(
         technique="property-based testing (rapid) of concurrent senders against the real session over netsim, with scheduler yields injected inside store/handler call-outs and runs at GOMAXPROCS 16/4/2/1; wire-numbering invariant on independently tokenized captured bytes",
-        level_text="Exploration: 1-8 goroutines x 1-12 sends with generated virtual delays interleave with timer heartbeats, TestRequest answers and Rejects; the injected stores and an outgoing handler yield the processor a generated number of times per call so that a missing critical section reorders numbers on the wire; 1-3 successive sessions share a counter store. Oracle: consecutive MsgSeqNum from the stored counter, identifiers, SendingTime syntax and interval, framing.",
+        level_text="Exploration: 1-8 goroutines x 1-12 sends with generated virtual delays interleave with timer heartbeats, TestRequest answers and Rejects; the injected stores and an outgoing handler yield the processor a generated number of times per call so that a missing critical section reorders numbers on the wire; 1-3 successive sessions share a counter store. Oracle: consecutive MsgSeqNum from the stored counter, identifiers, SendingTime syntax and interval, framing. A second engine runs on the real clock (no bubble) with a counter store of real latency and 2-6 senders: a message's SendingTime must not be earlier than the instant its number was requested from the counter store (a time taken before waiting for the session's turn is stale).",
         level_note="Trusted: netsim capture, harness/ref, synctest. The harness owns the clock, not the scheduler: interleavings inside one library function are explored by repetition across shards and GOMAXPROCS values only.",
         design_ref="DESIGN.md section 4, C05",
     ),
     "C13": dict(
         technique="fault enumeration: complete cross product of termination causes x injection points x in-flight traffic over fixed script families, plus rapid-drawn scripts and timings; virtual-clock termination oracle and own goroutine-leak detection inside the synctest bubble",
-        level_text="Fault enumeration: every (script family, role, buffer size, cause, in-flight shape) tuple is executed on every run, and rapid adds drawn scripts/timings; after a bounded virtual settling time the socket must be closed, the serving call returned, the passive side notified, parked and later sends returned, and no goroutine with a library frame may remain in the bubble (read from runtime.Stack, filtered to the bubble).",
+        level_text="Fault enumeration: every (script family, role, buffer size, cause, in-flight shape) tuple is executed on every run, and rapid adds drawn scripts/timings; after a bounded virtual settling time the socket must be closed, the serving call returned, the passive side notified, parked and later sends returned, and no goroutine with a library frame may remain in the bubble (read from runtime.Stack, filtered to the bubble). Drawn scripts may start with a Logon the acceptor refuses. A call that never returns (20 s wall-clock watchdog) is a violation with the case saved.",
         level_note="Trusted: synctest's notion of durable blocking, netsim's fault injection, runtime.Stack. Limits: one parked sender at most; blocked-write expiry is scripted; kernel socket behaviours are represented only by the error/closure classes netsim implements.",
         design_ref="DESIGN.md section 4, C13",
     ),
     "C20": dict(
         technique="property-based scenario generation (rapid) executed under the Go race detector (-race build) inside synctest bubbles",
         engine="rapid",
-        level_text="Exploration: generated scenarios make senders, inbound dispatch, both timer goroutines, state queries, handler/event registration and stop/close overlap in virtual time on both roles with the bundled store; every race report is a violation keyed by the pair of library functions.",
+        level_text="Exploration: generated scenarios make senders, inbound dispatch, both timer goroutines, state queries, handler/event registration and stop/close overlap in virtual time on both roles with the bundled store; the acceptor's logon callback may take virtual time (senders and timers of an earlier logon run meanwhile); every race report is a violation keyed by the pair of library functions.",
         level_note="Trusted: the Go race detector (executed pairs only), synctest. Goroutines inside a bubble run truly in parallel; the drawn virtual delays decide which activities overlap.",
         design_ref="DESIGN.md section 4, C20",
     ),
